@@ -24,7 +24,7 @@ STATES = {
 }
 
 # value specs -> (builder(cur, stale, other), well-formed?)
-VALUES = ["current", "stale", "other", "star", "list-with-current", "list-without-current", "list-spaces", "unquoted-current", "garbage", "empty-quotes"]
+VALUES = ["current", "stale", "other", "star", "list-with-current", "list-without-current", "list-spaces", "unquoted-current", "garbage", "empty-quotes", "empty", "blank"]
 
 
 def header_value(spec, cur, stale, other):
@@ -47,6 +47,10 @@ def header_value(spec, cur, stale, other):
         return c.strip('"')
     if spec == "garbage":
         return "xyzzy"
+    if spec == "empty":
+        return ""
+    if spec == "blank":
+        return "  "
     if spec == "empty-quotes":
         return '""'
     raise ValueError(spec)
@@ -54,7 +58,8 @@ def header_value(spec, cur, stale, other):
 
 def matches(spec, exists):
     """Does the header value match the current representation (RFC 7232 strong comparison)?  None = undefined by the property."""
-    if spec in ("unquoted-current", "garbage", "empty-quotes"):
+    if spec in ("unquoted-current", "garbage", "empty-quotes", "empty", "blank"):
+        # a header that is present but lists no entity tag matches nothing
         return None if spec == "unquoted-current" else False
     if not exists:
         return False
